@@ -1190,3 +1190,81 @@ Proof.
   - destruct (Z.eqb_spec (Z.of_nat (S (S (List.length l)))) Gen.C19.single_message_len) as [E|]; [|reflexivity].
     exfalso. unfold Gen.C19.single_message_len in E. lia.
 Qed.
+
+(** ** A positive guarantee UNDER interleaving: whatever Insert / Remove happen between two Next(), the
+    transaction an iterator movement arrives at is pending at that moment *)
+Definition aproj (o : aop) : list op :=
+  match o with AInsert s n p => [Insert s n p] | ARemove s n => [Remove s n] | AOpen => [Select] | ANext => [] end.
+
+Lemma it_open_st st : fst (it_open st) = fst (select_op st).
+Proof. unfold it_open, select_op. destruct (pidx st); reflexivity. Qed.
+
+Lemma arun_fold c : forall ops a, a_st (fold_left (astep c) ops a) = fold_left (stepc c) (flat_map aproj ops) (a_st a).
+Proof.
+  induction ops as [|o ops IH]; intros a; [reflexivity|]. cbn [fold_left flat_map]. rewrite fold_left_app, IH. f_equal.
+  destruct o as [s n p|s n| |]; cbn [astep aproj fold_left stepc].
+  - destruct (insert_cfg c s n p (a_st a)) as [st' res]. reflexivity.
+  - destruct (remove s n (a_st a)) as [st' ok]. reflexivity.
+  - pose proof (it_open_st (a_st a)) as E. destruct (it_open (a_st a)) as [st' r]. exact E.
+  - destruct (a_it a); reflexivity.
+Qed.
+
+Lemma arun_state c ops : a_st (arun c ops) = runc c (flat_map aproj ops).
+Proof. unfold arun, runc. now rewrite arun_fold. Qed.
+
+Lemma sl_after_incl n l x : In x (sl_after n l) -> In x l.
+Proof.
+  induction l as [|[n' p'] l IH]; simpl; [tauto|]. destruct (n =? n'); [now right|]. intros H. right. now apply IH.
+Qed.
+
+Lemma try_sender_yield_pending st pd cs s np nn n :
+  GInv st pd -> try_sender st cs s np nn = TYield n -> In (s, n) (map tx_sn pd).
+Proof.
+  intros HG H. unfold try_sender in H. destruct (cursor_next st cs s) as [[n0 p0]|] eqn:Ec; [|discriminate].
+  assert (En : n = n0).
+  { destruct (p0 <? np); [discriminate|]. destruct (p0 =? np).
+    - destruct nn; [|discriminate]. destruct (_ <? _); [discriminate|]. now inversion H.
+    - now inversion H. }
+  subst n0. apply (g_sidx_has _ _ HG). apply in_map_iff. exists (n, p0). split; [reflexivity|].
+  unfold cursor_next in Ec. destruct (aget Z.eqb s cs) as [[m d]|].
+  - destruct d; [discriminate|]. destruct (sl_after m (sget s (sidx st))) as [|e r] eqn:Ea; [discriminate|].
+    inversion Ec; subst. apply (sl_after_incl m). rewrite Ea. now left.
+  - destruct (sget s (sidx st)) as [|e r]; [discriminate|]. inversion Ec; subst. now left.
+Qed.
+
+Lemma it_tx_yield k d cs n np : it_tx (mkIter k d (aset Z.eqb (k_sender k) (n, false) cs) np) = (k_sender k, n).
+Proof. unfold it_tx. cbn [it_node it_cur]. now rewrite (aget_aset_same Z.eqb Z.eqb_spec). Qed.
+
+Lemma advance_yield_pending st pd : GInv st pd -> forall suffix cs it, advance st cs suffix = SAt it -> In (it_tx it) (map tx_sn pd).
+Proof.
+  intros HG. induction suffix as [|k rest IH]; intros cs it H; [discriminate|]. cbn [advance] in H.
+  destruct (try_sender st cs (k_sender k) _ (hd_error rest)) as [n| |] eqn:Et; [|now apply IH in H|discriminate].
+  inversion H; subst. rewrite it_tx_yield. eapply try_sender_yield_pending; eauto.
+Qed.
+
+Lemma it_next_yield_pending st pd it0 it : GInv st pd -> it_next st it0 = SAt it -> In (it_tx it) (map tx_sn pd).
+Proof.
+  intros HG H. unfold it_next in H.
+  destruct (try_sender st (it_cur it0) (k_sender (it_node it0)) (it_nextp it0) _) as [n| |] eqn:Et; [|eapply advance_yield_pending; eauto|discriminate].
+  inversion H; subst. rewrite it_tx_yield. eapply try_sender_yield_pending; eauto.
+Qed.
+
+Lemma interleaved_yield_is_pending_proof c ops o it :
+  o = AOpen \/ o = ANext ->
+  (o = ANext -> exists it0, a_it (arun c ops) = SAt it0) ->
+  a_it (arun c (ops ++ [o])) = SAt it ->
+  In (it_tx it) (map tx_sn (pendc c (flat_map aproj (ops ++ [o])))).
+Proof.
+  intros Ho Hprev H.
+  assert (HG : GInv (a_st (arun c (ops ++ [o]))) (pendc c (flat_map aproj (ops ++ [o])))).
+  { rewrite arun_state. apply GInv_runc. }
+  revert H HG. generalize (pendc c (flat_map aproj (ops ++ [o]))). intros pd.
+  unfold arun in *. rewrite fold_left_app. cbn [fold_left].
+  set (a := fold_left (astep c) ops ainit) in *.
+  destruct Ho as [-> | ->]; cbn [astep].
+  - destruct (it_open (a_st a)) as [st' r] eqn:Eo. cbn [a_st a_it]. intros -> HG.
+    unfold it_open in Eo. destruct (pidx (a_st a)); [inversion Eo|]. inversion Eo as [[E1 E2]]. rewrite E1 in E2.
+    eapply advance_yield_pending; eauto.
+  - destruct (Hprev eq_refl) as [it0 E0]. rewrite E0. cbn [a_st a_it]. intros H HG.
+    eapply it_next_yield_pending; eauto.
+Qed.
